@@ -144,6 +144,14 @@ Fixpoint yty_of_sx (fuel : nat) (a : sx) : option yty :=
           if String.eqb k "magic" then
             match rest with [SN len; SN val] => Some (YMagic (N.to_nat len) val) | _ => None end
           else if String.eqb k "struct" then option_map YStruct (tys rest)
+          else if String.eqb k "ostruct" then option_map YOpenStruct (tys rest)
+          else if String.eqb k "peek" then
+            match rest with
+            | [SN off; x; y] =>
+                match yty_of_sx f x, yty_of_sx f y with
+                | Some t0, Some t1 => Some (YPeek (N.to_nat off) t0 t1) | _, _ => None end
+            | _ => None
+            end
           else if String.eqb k "sum" then option_map YSum (alts rest)
           else if String.eqb k "hm" then
             match rest with
@@ -321,6 +329,29 @@ Definition run_answer2 (a : sx) : sx :=
   | _ => sx_err "answer2"
   end.
 
+(* c08.reader: ('conn payload) -> 'forward | 'consumed | 'panic   (Connection.reader, connected, no auth key)
+               ('client payload) -> 'alive | 'panic                (Client.reader behind it)
+               ('auth payload) -> 'authok | 'autherr | 'panic      (Connection.reader while authenticating) *)
+Definition run_reader (a : sx) : sx :=
+  match a with
+  | SL [SA mode; SBytes p] =>
+      if String.eqb mode "conn" then
+        match conn_reader_step p with
+        | Ok RForward => SA "forward" | Ok _ => SA "consumed" | Err _ => SA "err" | Panic _ => SA "panic"
+        end
+      else if String.eqb mode "client" then
+        match conn_reader_step p with
+        | Ok RForward => match client_reader_step false p with Panic _ => SA "panic" | _ => SA "alive" end
+        | Ok _ => SA "alive" | Err _ => SA "alive" | Panic _ => SA "panic"
+        end
+      else
+        match conn_reader_step p with
+        | Ok RAuth => match auth_nonce p with Ok _ => SA "authok" | Err _ => SA "autherr" | Panic _ => SA "panic" end
+        | Ok _ => SA "other" | Err _ => SA "other" | Panic _ => SA "panic"
+        end
+  | _ => sx_err "reader"
+  end.
+
 (* c08.nonce: payload -> 'ok | 'err | 'panic *)
 Definition run_nonce (a : sx) : sx :=
   match a with
@@ -379,6 +410,7 @@ Definition run (name : string) (a : sx) : sx :=
   else if is "c08.declen" then run_declen a
   else if is "c08.answer" then run_answer a
   else if is "c08.answer2" then run_answer2 a
+  else if is "c08.reader" then run_reader a
   else if is "c08.nonce" then run_nonce a
   else if is "c08.packet" then run_packet a
   else if is "c08.vmstack" then run_vmstack a
